@@ -43,7 +43,7 @@ import Y0.Props.C02
 import Y0.Lemmas.LatentIdCongr
 
 namespace Y0.LV
-open MG
+open MG IdCongr
 
 /-! ## 1. ADMG → LV-DAG → ADMG -/
 
